@@ -232,11 +232,11 @@ def _fold(c):
                    if ord(ch) < 128)
 
 
-FOLD = {c: _fold(c) for c in range(256)}
+FOLD = {c: _fold(c) for c in sstr.ALPHA}
 SINGLE = {c: ord(f) for c, f in FOLD.items() if len(f) == 1}
 EMPTY = frozenset(c for c, f in FOLD.items() if f == '')
 MULTI = {c: f for c, f in FOLD.items() if len(f) > 1}
-SINGLE_MAP = tuple(SINGLE.get(c) for c in range(256))
+SINGLE_MAP = sstr.Table((c, SINGLE.get(c)) for c in sstr.ALPHA)
 
 
 class Folded:
@@ -264,7 +264,8 @@ class FakeUD:
         out = []
         for ch in s.c:
             if isinstance(ch, int):
-                out.extend(ord(x) for x in FOLD[ch] if ch < 256)
+                out.extend(ord(x) for x in (
+                    FOLD[ch] if ch in FOLD else _fold(ch)))
                 continue
             if ch.in_set(frozenset(SINGLE)):
                 out.append(ch.mapped(SINGLE_MAP))
